@@ -476,12 +476,46 @@ Qed.
 Lemma known_in e a : In a (e_avss e) -> known_avs e (v_id a) = true.
 Proof. intros H. unfold known_avs. apply existsb_exists. exists a. split; [assumption|apply Z.eqb_refl]. Qed.
 
-(* no operator is opted in under a differently-cased spelling of a registered AVS address *)
-Definition no_aliases (e : env) : bool :=
-  forallb (fun a => match v_aliases a with [] => true | _ => false end) (e_avss e).
+(* nothing is stored under an alias spelling: the alias clauses of the statement are void *)
+Lemma rows_of_alias_nil e s a al : alias_free e s = true -> In a (e_avss e) -> In al (v_aliases a) ->
+  rows_of al (s_rows s) = [].
+Proof.
+  intros Haf Ha Hal. unfold alias_free in Haf. apply andb_prop in Haf. destruct Haf as [Hr _].
+  unfold rows_of. induction (s_rows s) as [|r t IH]; [reflexivity|]. simpl in *.
+  apply andb_prop in Hr. destruct Hr as [Hr1 Hr2].
+  destruct (Z.eqb_spec (r_avs r) al) as [E|E]; [|apply IH; assumption].
+  exfalso. apply negb_true_iff in Hr1.
+  assert (is_alias e (r_avs r) = true).
+  { unfold is_alias. apply existsb_exists. exists a. split; [assumption|].
+    unfold zmem. apply existsb_exists. exists al. split; [assumption|]. apply Z.eqb_eq. assumption. }
+  congruence.
+Qed.
+
+Lemma rows_of_nil_keys_sub s' s id : keys_sub s' s = true -> rows_of id (s_rows s) = [] -> rows_of id (s_rows s') = [].
+Proof.
+  intros Hk Hn. unfold rows_of in *. unfold keys_sub in Hk. rewrite forallb_forall in Hk.
+  destruct (filter (fun r => r_avs r =? id) (s_rows s')) as [|r' t] eqn:E; [reflexivity|]. exfalso.
+  assert (Hin : In r' (filter (fun r => r_avs r =? id) (s_rows s'))) by (rewrite E; left; reflexivity).
+  apply filter_In in Hin. destruct Hin as [Hin Hid]. specialize (Hk r' Hin). apply existsb_exists in Hk.
+  destruct Hk as [r [Hr Hrr]]. apply andb_prop in Hrr. destruct Hrr as [H1 _]. apply Z.eqb_eq in H1, Hid.
+  assert (In r (filter (fun r0 => r_avs r0 =? id) (s_rows s))).
+  { apply filter_In. split; [assumption|]. apply Z.eqb_eq. congruence. }
+  rewrite Hn in H. contradiction.
+Qed.
+
+Lemma alias_clause e calls s s' a : alias_free e s = true -> keys_sub s' s = true -> In a (e_avss e) ->
+  forallb (fun al => match rows_of al (s_rows s), rows_of al (s_rows s') with
+                     | [], [] => true
+                     | _, _ => avs_ok_id e calls s s' a al
+                     end) (v_aliases a) = true.
+Proof.
+  intros Haf Hk Ha. apply forallb_forall. intros al Hal.
+  pose proof (rows_of_alias_nil e s a al Haf Ha Hal) as H1.
+  rewrite H1, (rows_of_nil_keys_sub s' s al Hk H1). reflexivity.
+Qed.
 
 Theorem epoch_end_meets_statement e s c :
-  nodupb Z.eqb (map v_id (e_avss e)) = true -> env_nonneg e = true -> no_aliases e = true ->
+  nodupb Z.eqb (map v_id (e_avss e)) = true -> env_nonneg e = true -> alias_free e s = true ->
   step_ok e [c] s (epoch_end e s c) = true.
 Proof.
   intros Hnd Hnn Hna. apply nodupb_NoDup in Hnd. unfold step_ok. rewrite epoch_end_fold.
@@ -489,8 +523,7 @@ Proof.
   repeat (apply andb_true_intro; split).
   - apply forallb_forall. intros a Ha. unfold avs_ok.
     rewrite avs_ok_of_view by (try assumption; apply V1; assumption).
-    unfold no_aliases in Hna. rewrite forallb_forall in Hna. specialize (Hna a Ha).
-    destruct (v_aliases a); [reflexivity|discriminate].
+    apply alias_clause; [assumption|apply fold_keys_sub|assumption].
   - rewrite (fold_rows_other (fun r => negb (known_avs e (r_avs r)))).
     + apply rows_eqb_refl.
     + intros a r Ha Hr. rewrite Hr, (known_in e a Ha). reflexivity.
@@ -524,23 +557,6 @@ Proof. reflexivity. Qed.
 (* monotonicity of the total value in pool amounts and prices *)
 Lemma zsum_le l1 l2 : Forall2 Z.le l1 l2 -> zsum l1 <= zsum l2.
 Proof. induction 1; simpl; [lia|]. unfold zsum in *. simpl. lia. Qed.
-
-(* sequences of blocks *)
-Fixpoint all_blocks_ok (s : st) (h : list (env * (Z * Z))) : bool :=
-  match h with
-  | [] => true
-  | (e, c) :: t => step_ok e [c] s (epoch_end e s c) && all_blocks_ok (epoch_end e s c) t
-  end.
-
-Definition hist_wf (h : list (env * (Z * Z))) : bool :=
-  forallb (fun ec => nodupb Z.eqb (map v_id (e_avss (fst ec))) && env_nonneg (fst ec) && no_aliases (fst ec)) h.
-
-Lemma history_meets_statement h : forall s, hist_wf h = true -> all_blocks_ok s h = true.
-Proof.
-  induction h as [|[e c] t IH]; intros s H; simpl in *; [reflexivity|].
-  apply andb_prop in H. destruct H as [H Ht]. apply andb_prop in H. destruct H as [H H3]. apply andb_prop in H. destruct H as [H1 H2].
-  rewrite epoch_end_meets_statement by assumption. apply IH. assumption.
-Qed.
 
 (* total value is monotone in the pool amounts (same pools, same prices) *)
 Lemma expected_total_mono e e' a op :
@@ -640,15 +656,14 @@ Qed.
 
 (* one block in which any number of epochs end (the shape the monitor evaluates on the implementation) *)
 Theorem step_meets_statement e s calls :
-  nodupb Z.eqb (map v_id (e_avss e)) = true -> env_nonneg e = true -> no_aliases e = true ->
+  nodupb Z.eqb (map v_id (e_avss e)) = true -> env_nonneg e = true -> alias_free e s = true ->
   step_ok e calls s (step e s calls) = true.
 Proof.
   intros Hnd Hnn Hna. apply nodupb_NoDup in Hnd. unfold step_ok.
   repeat (apply andb_true_intro; split).
   - apply forallb_forall. intros a Ha. unfold avs_ok.
     rewrite avs_ok_of_view_gen by (try assumption; apply step_view; assumption).
-    unfold no_aliases in Hna. rewrite forallb_forall in Hna. specialize (Hna a Ha).
-    destruct (v_aliases a); [reflexivity|discriminate].
+    apply alias_clause; [assumption|apply step_keys_sub|assumption].
   - rewrite (step_rows_other (fun r => negb (known_avs e (r_avs r)))).
     + apply rows_eqb_refl.
     + intros a r Ha Hr. rewrite Hr, (known_in e a Ha). reflexivity.
@@ -656,4 +671,209 @@ Proof.
     + apply vals_list_eqb_refl.
     + intros a Ha. rewrite (known_in e a Ha). reflexivity.
   - apply step_keys_sub.
+Qed.
+
+(* ------------------------------------------------------------------ alias-freedom is an invariant ---- *)
+
+Lemma is_avs_not_alias e key : aliases_disjoint e = true -> is_avs e key = true -> is_alias e key = false.
+Proof.
+  intros Hd Ha. unfold is_avs in Ha. apply existsb_exists in Ha. destruct Ha as [a [Hin Hk]]. apply Z.eqb_eq in Hk. subst key.
+  unfold aliases_disjoint in Hd. rewrite forallb_forall in Hd. apply negb_true_iff. apply Hd. assumption.
+Qed.
+
+Lemma opt_in_alias_free e s key op pre : aliases_disjoint e = true -> alias_free e s = true ->
+  alias_free e (opt_in e s key op pre) = true.
+Proof.
+  intros Hd Haf. unfold opt_in. destruct (pre && is_avs e key && negb (has_row (s_rows s) key op)) eqn:E; [|assumption].
+  apply andb_prop in E. destruct E as [E _]. apply andb_prop in E. destruct E as [_ Hav].
+  unfold alias_free in *. apply andb_prop in Haf. destruct Haf as [Hr Hv]. cbn [s_rows s_avsval].
+  rewrite forallb_app, Hr, Hv. simpl. rewrite (is_avs_not_alias e key Hd Hav). reflexivity.
+Qed.
+
+Lemma forallb_filter {A} (f g : A -> bool) l : forallb f l = true -> forallb f (filter g l) = true.
+Proof.
+  intros H. apply forallb_forall. intros x Hx. apply filter_In in Hx. rewrite forallb_forall in H. apply H. tauto.
+Qed.
+
+Lemma opt_out_alias_free e s key op pre : alias_free e s = true -> alias_free e (opt_out e s key op pre) = true.
+Proof.
+  intros Haf. unfold opt_out. destruct (pre && is_avs e key); [|assumption].
+  unfold alias_free in *. apply andb_prop in Haf. destruct Haf as [Hr Hv]. cbn [s_rows s_avsval].
+  rewrite forallb_filter, Hv by assumption. reflexivity.
+Qed.
+
+Lemma forallb_negb_filter_nil {A} (f : A -> bool) l : forallb (fun x => negb (f x)) l = true <-> filter f l = [].
+Proof.
+  induction l as [|a t IH]; simpl; [tauto|]. destruct (f a); simpl; [split; discriminate|exact IH].
+Qed.
+
+Lemma step_alias_free e calls s : aliases_disjoint e = true -> alias_free e s = true ->
+  alias_free e (step e s calls) = true.
+Proof.
+  intros Hd Haf. unfold alias_free in *. apply andb_prop in Haf. destruct Haf as [Hr Hv].
+  apply andb_true_intro. split.
+  - pose proof (step_keys_sub e calls s) as Hk. unfold keys_sub in Hk. rewrite forallb_forall in Hk, Hr.
+    apply forallb_forall. intros r' Hr'. specialize (Hk r' Hr'). apply existsb_exists in Hk.
+    destruct Hk as [r [Hin Hk]]. apply andb_prop in Hk. destruct Hk as [Hk _]. apply Z.eqb_eq in Hk.
+    rewrite <- Hk. apply Hr. assumption.
+  - apply (forallb_negb_filter_nil (fun kv => is_alias e (fst kv))).
+    rewrite (step_vals_other (is_alias e)).
+    + apply (forallb_negb_filter_nil (fun kv => is_alias e (fst kv))). assumption.
+    + intros a Ha. unfold aliases_disjoint in Hd. rewrite forallb_forall in Hd. apply negb_true_iff. apply Hd. assumption.
+Qed.
+
+(* histories: epoch ends, opt-ins and opt-outs in any order, ledger and prices changing freely, registry [reg] fixed *)
+Inductive hop := HEpoch (c : Z * Z) | HOptIn (key op : Z) (pre : bool) | HOptOut (key op : Z) (pre : bool).
+
+Definition hstep (reg : list avs) (x : list pool * list ainfo * hop) (s : st) : st :=
+  let '(ps, ai, o) := x in
+  let e := mkEnv ps ai reg in
+  match o with
+  | HEpoch c => epoch_end e s c
+  | HOptIn key op pre => opt_in e s key op pre
+  | HOptOut key op pre => opt_out e s key op pre
+  end.
+
+Fixpoint all_blocks_ok (reg : list avs) (s : st) (h : list (list pool * list ainfo * hop)) : bool :=
+  match h with
+  | [] => true
+  | x :: t =>
+      (match x with
+       | (ps, ai, HEpoch c) => step_ok (mkEnv ps ai reg) [c] s (epoch_end (mkEnv ps ai reg) s c)
+       | _ => true
+       end) && all_blocks_ok reg (hstep reg x s) t
+  end.
+
+Definition hist_wf (reg : list avs) (h : list (list pool * list ainfo * hop)) : bool :=
+  nodupb Z.eqb (map v_id reg) && aliases_disjoint (mkEnv [] [] reg) &&
+  forallb (fun x => let '(ps, ai, _) := x in env_nonneg (mkEnv ps ai reg)) h.
+
+Lemma history_meets_statement reg h : forall s, hist_wf reg h = true -> alias_free (mkEnv [] [] reg) s = true ->
+  all_blocks_ok reg s h = true.
+Proof.
+  induction h as [|[[ps ai] o] t IH]; intros s H Haf; [reflexivity|].
+  unfold hist_wf in H. apply andb_prop in H. destruct H as [H Hall]. apply andb_prop in H. destruct H as [Hnd Hd].
+  cbn [forallb] in Hall. apply andb_prop in Hall. destruct Hall as [Hnn Ht].
+  assert (Hwt : hist_wf reg t = true) by (unfold hist_wf; rewrite Hnd, Hd, Ht; reflexivity).
+  cbn [all_blocks_ok]. apply andb_true_intro. split.
+  - destruct o; [|reflexivity|reflexivity]. apply epoch_end_meets_statement; assumption.
+  - apply IH; [assumption|]. unfold hstep. destruct o.
+    + change (epoch_end (mkEnv ps ai reg) s c) with (step (mkEnv ps ai reg) s [c]).
+      apply (step_alias_free (mkEnv ps ai reg) [c] s); assumption.
+    + apply (opt_in_alias_free (mkEnv ps ai reg)); assumption.
+    + apply (opt_out_alias_free (mkEnv ps ai reg)); assumption.
+Qed.
+
+(* ------------------------------------------------------------------ wave 2: rounding bound and price-list monotonicity ---- *)
+
+(* ---- self tokens: monotone in the operator share and in the amount, and within one unit of the exact quotient ---- *)
+
+Lemma tokens_mono share share' tshare total total' v v' :
+  0 <= share -> share <= share' -> 0 <= total -> total <= total' -> 0 < tshare ->
+  tokens_from_shares share tshare total = Ok v -> tokens_from_shares share' tshare total' = Ok v' -> v <= v'.
+Proof.
+  intros Hs Hss Ht Htt Hts. unfold tokens_from_shares.
+  destruct (share >? tshare); [discriminate|]. destruct (share' >? tshare); [discriminate|].
+  destruct (Z.eqb_spec tshare 0); [exfalso; lia|]. intros H1 H2. inversion H1. inversion H2.
+  apply dec_trunc_int_mono.
+  - apply dec_quo_nonneg; [unfold dec_mul_int; nia|lia].
+  - apply dec_quo_mono_l; unfold dec_mul_int; try nia; lia.
+Qed.
+
+(* exact value X = share*total/tshare (the common scale of the shares cancels):  X - 1 - 10^-18 < v <= X + 0.5*10^-18 *)
+Lemma tokens_bounds share tshare total v :
+  0 <= share -> 0 < tshare -> 0 <= total -> tokens_from_shares share tshare total = Ok v ->
+  2 * P * v * tshare <= 2 * P * (share * total) + tshare /\
+  2 * P * (share * total) < 2 * P * (v + 1) * tshare + 2 * tshare.
+Proof.
+  intros Hs Hts Ht. unfold tokens_from_shares.
+  destruct (share >? tshare); [discriminate|]. destruct (Z.eqb_spec tshare 0); [exfalso; lia|].
+  intros H. inversion H as [Hv]. clear H Hv.
+  unfold dec_mul_int, dec_quo, dec_trunc_int. pose proof P_pos as HP. pose proof PP_pos as HPP.
+  set (a := share * total). assert (Ha : 0 <= a) by (unfold a; nia).
+  rewrite (quot_nonneg_div (a * PP) tshare) by nia.
+  assert (Hd0 : 0 <= a * PP / tshare) by (apply Z.div_pos; nia).
+  rewrite chop_round_nonneg_eq by assumption.
+  pose proof (chop_round_nn_bounds (a * PP / tshare) Hd0) as [Hc1 Hc2].
+  pose proof (chop_round_nn_nonneg (a * PP / tshare) Hd0) as Hc0.
+  set (d := a * PP / tshare) in *. set (c := chop_round_nn d) in *.
+  rewrite (quot_nonneg_div c P) by lia.
+  pose proof (Z.div_mod (a * PP) tshare ltac:(lia)) as Ed. pose proof (Z.mod_pos_bound (a * PP) tshare Hts) as Bd.
+  fold d in Ed.
+  pose proof (Z.div_mod c P ltac:(lia)) as Ec. pose proof (Z.mod_pos_bound c P HP) as Bc.
+  set (t := c / P) in *. unfold PP in *.
+  assert (Hc3 : P * t <= c) by lia.
+  assert (Hc4 : c < P * (t + 1)) by lia.
+  assert (Hd1 : d * tshare <= a * (P * P)) by lia.
+  assert (Hd2 : a * (P * P) < (d + 1) * tshare) by lia.
+  split.
+  - assert (H1 : 2 * P * (P * t) <= 2 * P * c) by (apply Z.mul_le_mono_nonneg_l; lia).
+    assert (H2 : 2 * P * (P * t) <= 2 * d + P) by lia.
+    assert (H3 : (2 * P * (P * t)) * tshare <= (2 * d + P) * tshare) by (apply Z.mul_le_mono_nonneg_r; lia).
+    assert (H4 : (2 * P * (P * t)) * tshare <= 2 * (a * (P * P)) + P * tshare) by lia.
+    (* divide by P *)
+    apply (Z.mul_le_mono_pos_l _ _ P HP). lia.
+  - assert (H1 : 2 * P * c < 2 * P * (P * (t + 1))) by (apply Z.mul_lt_mono_pos_l; lia).
+    assert (H2 : 2 * d - P < 2 * P * (P * (t + 1))) by lia.
+    assert (H3 : 2 * (a * (P * P)) < (2 * d + 2) * tshare) by lia.
+    assert (H4 : (2 * d + 2) * tshare <= (2 * P * (P * (t + 1)) + P + 1) * tshare) by (apply Z.mul_le_mono_nonneg_r; lia).
+    assert (H5 : (P + 1) * tshare <= 2 * P * tshare) by (apply Z.mul_le_mono_nonneg_r; lia).
+    apply (Z.mul_lt_mono_pos_l P); [exact HP|]. lia.
+Qed.
+
+(* ---- total value monotone in the price LIST ---- *)
+
+Definition price_le (i i' : ainfo) : Prop :=
+  a_id i' = a_id i /\ a_dec i' = a_dec i /\ a_pdec i' = a_pdec i /\ 0 <= a_price i /\ a_price i <= a_price i' /\
+  0 <= a_dec i /\ 0 <= a_pdec i.
+
+Lemma find_asset_rel l l' k : Forall2 price_le l l' ->
+  match find_asset l k, find_asset l' k with
+  | Some i, Some i' => price_le i i'
+  | None, None => True
+  | _, _ => False
+  end.
+Proof.
+  unfold find_asset. induction 1 as [|i i' t t' Hi _ IH]; simpl; [exact I|].
+  destruct Hi as [Hid Hrest]. rewrite Hid. destruct (a_id i =? k); [|exact IH].
+  split; [assumption|exact Hrest].
+Qed.
+
+Lemma zsum_le_map {A} (f g : A -> Z) l : (forall x, In x l -> f x <= g x) -> zsum (map f l) <= zsum (map g l).
+Proof.
+  induction l as [|a t IH]; intros H; simpl; [lia|].
+  assert (f a <= g a) by (apply H; left; reflexivity).
+  assert (zsum (map f t) <= zsum (map g t)) by (apply IH; intros; apply H; right; assumption).
+  unfold zsum in *. simpl. lia.
+Qed.
+
+Lemma expected_total_mono_prices e e' a op :
+  e_pools e' = e_pools e -> Forall2 price_le (e_assets e) (e_assets e') ->
+  forallb (fun x => 0 <=? p_total x) (e_pools e) = true ->
+  expected_total e a op <= expected_total e' a op.
+Proof.
+  intros Hp Hf Hnn. unfold expected_total. rewrite Hp. apply zsum_le_map. intros x Hx.
+  destruct (pool_in a op x); [|lia].
+  rewrite forallb_forall in Hnn. specialize (Hnn x Hx). apply Z.leb_le in Hnn.
+  unfold usd_pool, price_of. pose proof (find_asset_rel _ _ (p_asset x) Hf) as R.
+  destruct (find_asset (e_assets e) (p_asset x)) as [i|]; destruct (find_asset (e_assets e') (p_asset x)) as [i'|]; try contradiction.
+  - destruct R as [_ [Hd [Hpd [H0 [Hle [Hd0 Hpd0]]]]]]. rewrite Hd, Hpd. apply usd_mono; lia.
+  - lia.
+Qed.
+
+(* the same for the self value: monotone in the price list (token equivalent unchanged) *)
+Lemma expected_self_mono_prices e e' a op :
+  e_pools e' = e_pools e -> Forall2 price_le (e_assets e) (e_assets e') ->
+  forallb (fun x => (0 <=? p_total x) && (0 <=? p_tshare x) && (0 <=? p_oshare x)) (e_pools e) = true ->
+  expected_self e a op <= expected_self e' a op.
+Proof.
+  intros Hp Hf Hnn. unfold expected_self. rewrite Hp. apply zsum_le_map. intros x Hx.
+  destruct (pool_in a op x); [|lia].
+  rewrite forallb_forall in Hnn. specialize (Hnn x Hx).
+  apply andb_prop in Hnn. destruct Hnn as [Hnn Ho]. apply andb_prop in Hnn. destruct Hnn as [Ht Hts]. apply Z.leb_le in Ht, Hts, Ho.
+  pose proof (self_tokens_nonneg x Ht Hts Ho) as Hs.
+  unfold usd_pool, price_of. pose proof (find_asset_rel _ _ (p_asset x) Hf) as R.
+  destruct (find_asset (e_assets e) (p_asset x)) as [i|]; destruct (find_asset (e_assets e') (p_asset x)) as [i'|]; try contradiction.
+  - destruct R as [_ [Hd [Hpd [H0 [Hle [Hd0 Hpd0]]]]]]. rewrite Hd, Hpd. apply usd_mono; lia.
+  - lia.
 Qed.
